@@ -50,16 +50,41 @@ def stalled_dep_policy(rng, nw):
     return d
 
 
+def stalled_task_policy(rng, spec, nw):
+    """whoever executes a task that others depend on is parked inside it (before the function starts, inside it, before the
+    dump, before the unlock) while the other workers go on examining the dependents"""
+    used = set()
+    for ts in spec['tasks']:
+        used |= X.task_deps_spec(ts)
+    cands = sorted(used) or [0]
+    picks = rng.sample(cands, min(len(cands), rng.randint(1, 2)))
+    if rng.random() < 0.5:
+        picks = [max(cands)] + [p for p in picks if p != max(cands)][:1]        # the dependency defined last is the one most likely still running
+    return {'seed': rng.randrange(1 << 30), 'base': rng.choice(['random', 'rr', 'random']), 'flavour': 'stalled-task',
+            'stall_task': [[rng.choice(['start', 'ret', 'ret', 'dump', 'unlock', 'lock']), t + 1, rng.choice([40, 120, 400])] for t in picks]}
+
+
 def scenarios(ck):
     rng = ck.rng
     yield X.sanity_scenario()
-    n_rich = ck.n(170, 4000)
+    n_rich = ck.n(130, 3000)
+    n_map = ck.n(110, 2500)
     n_fail = ck.n(40, 800)
+    for i in range(n_map):
+        # consumers of mapped sequences: whole, elements, chunks, slices ending inside a block, reversed slices, slices of slices
+        nt = rng.randint(4, 8)
+        spec = X.gen_program(rng, nt, clean=True, rich=rng.choice([0.4, 0.8]), map_heavy=True, chainy=rng.choice([0.3, 0.6]))
+        nw = rng.randint(2, 4)
+        r = rng.random()
+        pol = stalled_task_policy(rng, spec, nw) if r < 0.6 else (stalled_dep_policy(rng, nw) if r < 0.8 else X.gen_policy(rng, nw))
+        yield {'program': spec, 'backend': X.pick_backend(rng, (5, 2, 1, 2)), 'prefill': [], 'keep_going': rng.random() < 0.3, 'keep_failed': False,
+               'phases': [{'workers': [{'nr_wait': rng.choice([1, 2, 3, 6]), 'unload': rng.random() < 0.4} for _ in range(nw)], 'policy': pol}]}
     for i in range(n_rich):
         nt = rng.randint(2, 7)
         spec = X.gen_program(rng, nt, clean=True, rich=rng.choice([0.7, 0.9, 1.0]), use_map=rng.random() < 0.4, chainy=rng.choice([0.3, 0.6]))
         nw = rng.randint(2, 4)
-        pol = stalled_dep_policy(rng, nw) if rng.random() < 0.65 else X.gen_policy(rng, nw)
+        r = rng.random()
+        pol = stalled_dep_policy(rng, nw) if r < 0.4 else (stalled_task_policy(rng, spec, nw) if r < 0.75 else X.gen_policy(rng, nw))
         yield {'program': spec, 'backend': X.pick_backend(rng, (5, 2, 1, 2)), 'prefill': X.closed_subset(rng, spec, 0.3) if rng.random() < 0.2 else [],
                'keep_going': rng.random() < 0.3, 'keep_failed': False,
                'phases': [{'workers': [{'nr_wait': rng.choice([1, 2, 3, 6]), 'unload': rng.random() < 0.4} for _ in range(nw)], 'policy': pol}]}
@@ -90,6 +115,24 @@ def shape_of(a, acc):
         if k == 'fun':
             acc.add('fun:' + a[2][0])
         shape_of(a[1], acc)
+    elif k == 'mapslice':
+        blocks, bs, ln, sls = a[1], a[2], a[3], a[4]
+        r = range(*slice(*sls[0]).indices(ln))
+        for sl in sls[1:]:
+            r = r[slice(*sl)]
+        if len(sls) > 1:
+            acc.add('mapslice:slice-of-slice')
+        if len(r) == 0:
+            acc.add('mapslice:empty')
+        else:
+            acc.add('mapslice:reversed' if r.step < 0 else 'mapslice:forward')
+            if r.step < 0 and r[-1] == 0:
+                acc.add('mapslice:reversed-down-to-element-0')
+            hi = max(r[0], r[-1]) + 1
+            if hi % bs != 0 and hi < ln:
+                acc.add('mapslice:ends-inside-a-block')
+            if len(set(p // bs for p in r)) < len(blocks):
+                acc.add('mapslice:does-not-touch-every-block')
 
 
 def run(ck):
